@@ -72,3 +72,22 @@ Theorem C19_union_without_clip_adds_only_subject :
   RZ "UnionPaths64" [S; fr] =
   VApp "execute.out#002" [VApp "addPaths" [VApp "newClipperBase" []; S; VSym "Subject"; VBool false]; VSym "Union"; fr; VSym "_"; VSym "_"].
 Proof. vm_compute. reflexivity. Qed.
+
+(* the sweep's contribution rule for closed edges, as TRANSLATED FROM /repo's CURRENT SOURCE on every
+   run (Gen/Decisions_gen.v, clipper_base.go:isContributingClosed): for every fill rule, clip type and
+   pair of wind counts an edge contributes to the solution exactly when the expected region
+   (Base/Geom.v: expected ct (filled fr .) (filled fr .)) differs across it *)
+From Clip Require Import Gen.Decisions_gen Model.DecisionProofs.
+Theorem C19_contribution_rule :
+  forall fr ct wc wc2 is_subj, counts_ok fr wc wc2 ->
+    gen_isContributingClosed fr ct wc wc2 is_subj = boundary_of_expected fr ct wc wc2 is_subj.
+Proof. exact isContributingClosed_is_boundary. Qed.
+Example C19_contribution_rule_nonvacuous :
+  counts_ok Positive 1 (-1) /\ gen_isContributingClosed Positive Difference 1 (-1) true = true /\
+  counts_ok EvenOdd (-1) 1 /\ gen_isContributingClosed EvenOdd Intersection (-1) 1 false = true.
+Proof.
+  unfold counts_ok. split; [split; [discriminate | intro H; discriminate H]|].
+  split; [reflexivity|]. split; [|reflexivity].
+  split; [discriminate | intros _; split; right; reflexivity].
+Qed.
+Print Assumptions C19_contribution_rule.
